@@ -1,9 +1,9 @@
 """Sidecar contracts, one module per area.  PROPS maps a property id to the
 contract modules that must be loaded to decide it."""
 PROPS = {
-    'C12': ['contracts.c12_cbc_check', 'contracts.recordlayer'],
+    'C12': ['contracts.c12_cbc_check', 'contracts.recordlayer', 'contracts.links'],
     'C01': ['contracts.c12_cbc_check', 'contracts.recordlayer', 'contracts.sendmsg', 'contracts.m2_posthandshake', 'contracts.m2_recordio', 'contracts.transport', 'contracts.small_extras', 'contracts.m2_tls13_states'],
-    'C02': ['contracts.c12_cbc_check', 'contracts.recordlayer', 'contracts.m2_recordlayer', 'contracts.m2_recordio', 'contracts.m2_getmsg', 'contracts.defragmenter', 'contracts.ciphers'],
+    'C02': ['contracts.c12_cbc_check', 'contracts.recordlayer', 'contracts.m2_recordlayer', 'contracts.m2_recordio', 'contracts.m2_getmsg', 'contracts.defragmenter', 'contracts.ciphers', 'contracts.links'],
     'C18': ['contracts.sessioncache'],
     'C19': ['contracts.settings', 'contracts.m2_server', 'contracts.m2_client', 'contracts.settings_copy'],
     'C20': ['contracts.suites', 'contracts.m2_client', 'contracts.m2_server', 'contracts.m2_factory'],
